@@ -66,6 +66,7 @@ def strategy(tier):
         # older kernels print fewer lines - for every mapping alike
         drop_core=st.sampled_from([None, None, None, "Swap", "Anonymous", "Referenced"]),
         memtotal_kb=st.one_of(st.sampled_from([1, 4, 2**20, 2**34]), st.integers(1, 2**36)),
+        oneshot=st.booleans(),   # all calls inside one `with p.oneshot():` block
         memtype=st.sampled_from(["rss", "vms", "shared", "text", "lib", "data",
                                  "dirty", "uss", "pss", "swap", "bogus", "", "RSS", "size"]),
     ))
@@ -135,12 +136,14 @@ def run_case(case):
                  ("memory_full_info", p.memory_full_info),
                  ("maps_ext", lambda: p.memory_maps(grouped=False)),
                  ("maps_grouped", lambda: p.memory_maps(grouped=True))]
-        for name, fn in calls:
-            try:
-                out[name] = fn()
-            except Exception as e:  # noqa: BLE001
-                import traceback
-                raise Violation(name + "-exception", f"{e!r} " + traceback.format_exc()[-500:]) from None
+        import contextlib
+        with (p.oneshot() if case.get("oneshot") else contextlib.nullcontext()):
+            for name, fn in calls:
+                try:
+                    out[name] = fn()
+                except Exception as e:  # noqa: BLE001
+                    import traceback
+                    raise Violation(name + "-exception", f"{e!r} " + traceback.format_exc()[-500:]) from None
         try:
             out["percent"] = ("ok", p.memory_percent(case["memtype"]))
         except ValueError as e:
